@@ -338,6 +338,9 @@ def read_fasta(data: bytes):
                 body = body[:-1]
                 if body.endswith(b"\r"):
                     body = body[:-1]
+            if body == b"" and terminated:
+                pos = end
+                continue  # an empty line (allowed after the last sequence line of a record)
             if cur["n_lines"] == 0:
                 cur["width"] = len(body)
                 cur["linebytes"] = len(line) if terminated else None
@@ -369,7 +372,7 @@ def wrap(seq: bytes, width: int) -> bytes:
     return b"".join(seq[i : i + width] + b"\n" for i in range(0, len(seq), width))
 
 
-def apply_agp_to_fasta(seqs: dict, scaffolds, width=60) -> bytes:
+def apply_agp_to_fasta(seqs: dict, scaffolds, width=60, gap=b"N") -> bytes:
     """
     seqs: name -> bytes.  scaffolds: plain [[name, rows]].  '-' rows reverse-complemented with
     the hand-typed table above, '?' (0) rows forward as AGP specifies, gaps as N.
@@ -380,7 +383,7 @@ def apply_agp_to_fasta(seqs: dict, scaffolds, width=60) -> bytes:
         parts = []
         for r in rows:
             if r[0] == "G":
-                parts.append(b"N" * r[1])
+                parts.append(gap * r[1])
             else:
                 piece = seqs[r[1]][r[2] - 1 : r[3]]
                 parts.append(revcomp(piece) if r[4] == -1 else piece)
